@@ -161,6 +161,8 @@ def _decide(h, meta, cfg, r):
     cap = (h.get('cap') or cfg['solver_cap']) if cfg['tier'] == 'quick' else max(cfg['solver_cap'], h.get('cap') or 0)
     if h['mode'] == 'U':
         modes += ['B', 'R']
+    if h.get('modes'):
+        modes = list(h['modes'])
     ins, getq = engine.model_queries(vc, h['mode'])
     r['inputs'] = dict(f64=len(ins['f64']), u64=len(ins['u64']))
     final = None
@@ -261,6 +263,9 @@ def _decide(h, meta, cfg, r):
             q = lines + block + [f'(assert (or {" ".join(main)} false))', '(check-sat)']
             if getq:
                 q.append(f'(get-value ({" ".join(getq)}))')
+            if os.environ.get('KSMT_KEEPQ'):
+                # development aid: keep the main query for experiments with other solver configurations
+                open(os.path.join(engine.BUILD, 'work', h['prop'], h['name'], 'main.smt2'), 'w').write('\n'.join(q) + '\n')
             v, o, s = engine.run_solver(q, cap, cfg['seed'])
             r['queries'] += 1
             r['solver_s'] += s
@@ -339,6 +344,10 @@ def _decide(h, meta, cfg, r):
             rec = dict(mode=mode, inputs=describe_inputs(model), results=[(p, res) for p, res, _ in reps], file=ipath)
             r['replays'].append(rec)
             bad = [(p, res) for p, res, _ in reps if res.startswith('FAIL') or res.startswith('PANIC')]
+            if bad and h.get('sufficient'):
+                final = ('undecided', 'the sufficient condition posed by this obligation fails on a replayed input (' +
+                         '; '.join(f'{p}: {res}' for p, res in bad)[:300] + '); this is not a violation of the property: the necessary-side obligations decide')
+                break
             if bad:
                 r['verdict'] = 'violation'
                 r['decided_in'] = mode
@@ -524,7 +533,8 @@ def main(argv=None):
                symex_cap=int(os.environ.get('KSMT_SYMEX_CAP', 300 if tier == 'quick' else 1800)))
     try:
         native_s = build_native(log)
-        metas, codegen_s = engine.codegen(feature, list(hs), log)
+        fallback = sorted({f for h in hs.values() for f in h.get('fallback', []) if f in hs_all and f not in hs})
+        metas, codegen_s = engine.codegen(feature, list(hs) + fallback, log)
     except Exception as e:
         print(f'BUILD-FAILURE property={prop}: {e}')
         return 2
@@ -543,6 +553,18 @@ def main(argv=None):
             log.flush()
             if os.environ.get('KSMT_VERBOSE'):
                 print(f"  {r['harness']:40s} {r['verdict']:10s} {r['wall_s']:7.1f}s {r['detail'][:100]}", flush=True)
+    # sufficient-condition obligations that did not come back unsat: decide their necessary-side fallbacks now
+    need = sorted({f for r in results if r['verdict'] == 'undecided' and hs[r['harness']].get('sufficient')
+                   for f in hs[r['harness']].get('fallback', []) if f in metas and f not in hs})
+    if need:
+        for f in need:
+            hs[f] = hs_all[f]
+        with cf.ProcessPoolExecutor(max_workers=a.jobs) as ex:
+            for r in ex.map(decide, [hs[f] for f in need], [metas[f] for f in need], [cfg] * len(need)):
+                r['fallback_run'] = True
+                results.append(r)
+                log.write(json.dumps(r) + '\n')
+                log.flush()
     results.sort(key=lambda r: r['harness'])
     known = [k for k in load_known() if k['prop'] == prop]
     rc = 0
